@@ -34,7 +34,8 @@ fn enc_cfg_file(p: &Path) -> String {
     match name.as_str() {
         ".rustfmt.toml" => format!("{}:dotted", enc_dir(dir)),
         "rustfmt.toml" => format!("{}:plain", enc_dir(dir)),
-        _ => format!("{}:other:{}", enc_dir(dir), name),
+        // another name: the `rustfmt.toml` of the pseudo-directory (see Layout::extra)
+        _ => format!("{}:plain", enc_dir(p)),
     }
 }
 
@@ -218,6 +219,10 @@ struct Layout {
     xdg: Option<String>,
     /// (absolute path, index of the probe source)
     sources: Vec<(PathBuf, usize)>,
+    /// config files with some other name (reachable through --config-path only): (path, content).
+    /// The model knows two file names; such a file is handed to it as the `rustfmt.toml` of a
+    /// pseudo-directory named like the file (the model never looks at names of `--config-path`).
+    extra: Vec<(PathBuf, usize)>,
 }
 
 impl Layout {
@@ -256,12 +261,18 @@ impl Layout {
         for (p, si) in &self.sources {
             std::fs::write(p, PROBE_SOURCES[*si % PROBE_SOURCES.len()]).expect("source");
         }
+        for (p, ci) in &self.extra {
+            std::fs::create_dir_all(p.parent().unwrap()).expect("extra dir");
+            std::fs::write(p, toml_text(&self.contents[*ci])).expect("extra config file");
+        }
     }
     fn model_tree(&self) -> String {
-        if self.dirs.is_empty() {
+        if self.dirs.is_empty() && self.extra.is_empty() {
             return "_".into();
         }
-        self.dirs.iter().map(|d| format!("{}:{}:{}", enc_dir(&d.path), d.dotted.is_file() as u8, d.plain.is_file() as u8)).collect::<Vec<_>>().join(";")
+        let mut v: Vec<String> = self.dirs.iter().map(|d| format!("{}:{}:{}", enc_dir(&d.path), d.dotted.is_file() as u8, d.plain.is_file() as u8)).collect();
+        v.extend(self.extra.iter().map(|(p, _)| format!("{}:0:1", enc_dir(p))));
+        v.join(";")
     }
     fn model_contents(&self) -> String {
         let mut v = vec![];
@@ -273,6 +284,9 @@ impl Layout {
                     _ => {}
                 }
             }
+        }
+        for (p, ci) in &self.extra {
+            v.push(format!("{}:0:{}", enc_dir(p), pairs_model(&self.contents[*ci])));
         }
         if v.is_empty() { "_".into() } else { v.join(";") }
     }
@@ -353,8 +367,12 @@ impl Opts {
         if a.file_lines.is_some() { f.push(format!("file_lines=x{}", enc_str("restricted"))); }
         match &self.cfg_path {
             Some(CfgPath::File(p)) => {
-                let dotted = p.file_name().map(|n| n == ".rustfmt.toml").unwrap_or(false);
-                f.push(format!("config_file={}:{}", enc_dir(p.parent().unwrap_or(Path::new("/"))), dotted as u8));
+                let name = p.file_name().map(|n| n.to_string_lossy().into_owned()).unwrap_or_default();
+                if name == ".rustfmt.toml" || name == "rustfmt.toml" {
+                    f.push(format!("config_file={}:{}", enc_dir(p.parent().unwrap_or(Path::new("/"))), (name == ".rustfmt.toml") as u8));
+                } else {
+                    f.push(format!("config_file={}:0", enc_dir(p)));
+                }
             }
             Some(CfgPath::Dir(p)) => f.push(format!("config_dir={}", enc_dir(p))),
             None => {}
@@ -1055,7 +1073,7 @@ fn fill_dir(rng: &mut Rng, l: &mut Layout, ctx: &Ctx, p: &Path, bare_chance: usi
 }
 
 fn gen_layout(ctx: &Ctx, rng: &mut Rng, root: PathBuf) -> Layout {
-    let mut l = Layout { root: root.clone(), dirs: vec![], contents: vec![], home: root.join("_home"), xdg: None, sources: vec![] };
+    let mut l = Layout { root: root.clone(), dirs: vec![], contents: vec![], home: root.join("_home"), xdg: None, sources: vec![], extra: vec![] };
     // the chain root/…, with side branches
     let depth = rng.below(4);
     let mut chain = vec![root.join("t")];
@@ -1096,6 +1114,14 @@ fn gen_layout(ctx: &Ctx, rng: &mut Rng, root: PathBuf) -> Layout {
         1 => l.xdg = Some("relative/xdg".into()),
         _ => l.xdg = Some(root.join("_xdg").to_string_lossy().into_owned()),
     }
+    if rng.chance(1, 2) {
+        let i = l.contents.len();
+        let c = content(ctx, rng, i);
+        l.contents.push(c);
+        let name = pk(rng, &["custom.toml", "my rustfmt.toml", "rustfmt.toml.bak", "Rustfmt.toml"]);
+        let dir = if rng.chance(1, 2) { root.join("_cfg") } else { rng.pick(&chain).clone() };
+        l.extra.push((dir.join(name), i));
+    }
     if l.home != root.join("_nohome") && rng.chance(4, 5) {
         let c = l.config_dir().join("rustfmt");
         fill_dir(rng, &mut l, ctx, &c, 2);
@@ -1114,7 +1140,7 @@ fn enumerated_layouts(ctx: &Ctx, base: &Path) -> Vec<Layout> {
                 let root = base.join(format!("e{}", n));
                 n += 1;
                 let mut rng = Rng::new(n as u64);
-                let mut l = Layout { root: root.clone(), dirs: vec![], contents: vec![], home: root.join("_home"), xdg: Some(root.join("_xdg").to_string_lossy().into_owned()), sources: vec![] };
+                let mut l = Layout { root: root.clone(), dirs: vec![], contents: vec![], home: root.join("_home"), xdg: Some(root.join("_xdg").to_string_lossy().into_owned()), sources: vec![], extra: vec![] };
                 let parent = root.join("t");
                 let child = parent.join("c");
                 let mut slot = |l: &mut Layout, s: Slot| match s {
@@ -1157,7 +1183,12 @@ fn all_config_files(l: &Layout) -> Vec<PathBuf> {
 /// a `--config-path` for this layout: existing file / directory with a file / directory without /
 /// missing path
 fn random_cfg_path(rng: &mut Rng, l: &Layout) -> CfgPath {
-    let files = all_config_files(l);
+    let mut files = all_config_files(l);
+    // a file with another name is taken twice as often
+    for (p, _) in &l.extra {
+        files.push(p.clone());
+        files.push(p.clone());
+    }
     match rng.below(6) {
         0 | 1 if !files.is_empty() => CfgPath::File(rng.pick(&files).clone()),
         2 | 3 => CfgPath::Dir(rng.pick(&l.dirs).path.clone()),
@@ -1269,6 +1300,15 @@ fn stage_loads(ctx: &Ctx, o: &mut Outcome, layouts: &[Layout], obs: &[LoadObs], 
             args.push("current".into());
         }
         args.push(file.to_string_lossy().into_owned());
+        if *i % 2 == 1 {
+            // the same command line with paths relative to the working directory
+            let prefix = format!("{}/", l.root.display());
+            for a in args.iter_mut() {
+                if let Some(rest) = a.strip_prefix(&prefix) {
+                    *a = rest.to_string();
+                }
+            }
+        }
         run_bin(ctx, &l.root, &l.home, l.xdg.as_deref(), &args, b"")
     });
     for ((i, verbose), r) in jobs.iter().zip(runs.iter()) {
@@ -1426,7 +1466,7 @@ fn gen_precedence(ctx: &Ctx, base: &Path, first_layout: usize) -> (Vec<Layout>, 
                 if !se.is_empty() { c.push(ctx.tv("style_edition", se)); }
                 if !ver.is_empty() { c.push(ctx.tv("version", ver)); }
                 if !ed.is_empty() { c.push(ctx.tv("edition", ed)); }
-                let l = Layout { root: root.clone(), dirs: vec![DirSpec { path: dir.clone(), dotted: Slot::Absent, plain: Slot::File(0) }], contents: vec![c], home: root.join("_home"), xdg: None, sources: vec![(dir.join("f0.rs"), n % PROBE_SOURCES.len())] };
+                let l = Layout { root: root.clone(), dirs: vec![DirSpec { path: dir.clone(), dotted: Slot::Absent, plain: Slot::File(0) }], contents: vec![c], home: root.join("_home"), xdg: None, sources: vec![(dir.join("f0.rs"), n % PROBE_SOURCES.len())], extra: vec![] };
                 for (ci, (fse, fed, inl)) in clis.iter().enumerate() {
                     let mut oo = Opts::default().with_inline(inl.iter().map(|(k, v)| ctx.tv(k, v)).collect());
                     oo.api.style_edition = fse.map(|x| x.to_string());
@@ -1567,12 +1607,18 @@ fn stage_e2e(ctx: &Ctx, o: &mut Outcome, layouts: &[Layout], sets: &[E2eSet], ma
     struct Job {
         set: usize,
         order: Vec<usize>,
+        /// the source on standard input, working directory = the file's directory (main.rs format_string:
+        /// load_config(Some("."), ..))
+        stdin: bool,
     }
     let mut jobs: Vec<Job> = vec![];
     for (si, set) in sets.iter().enumerate() {
         let n = layouts[set.layout].sources.len();
         for i in 0..n {
-            jobs.push(Job { set: si, order: vec![i] });
+            jobs.push(Job { set: si, order: vec![i], stdin: false });
+        }
+        for i in 0..n {
+            jobs.push(Job { set: si, order: vec![i], stdin: true });
         }
         if n > 1 {
             let mut perms = permutations(n);
@@ -1582,7 +1628,7 @@ fn stage_e2e(ctx: &Ctx, o: &mut Outcome, layouts: &[Layout], sets: &[E2eSet], ma
                 perms = perms.into_iter().step_by(step.max(1)).take(max_orders).collect();
             }
             for p in perms {
-                jobs.push(Job { set: si, order: p });
+                jobs.push(Job { set: si, order: p, stdin: false });
             }
         }
     }
@@ -1590,6 +1636,10 @@ fn stage_e2e(ctx: &Ctx, o: &mut Outcome, layouts: &[Layout], sets: &[E2eSet], ma
         let set = &sets[j.set];
         let l = &layouts[set.layout];
         let mut args = set.opts.argv();
+        if j.stdin {
+            let (p, si) = &l.sources[j.order[0]];
+            return run_bin(ctx, p.parent().unwrap(), &l.home, l.xdg.as_deref(), &args, PROBE_SOURCES[*si % PROBE_SOURCES.len()].as_bytes());
+        }
         args.push("--emit".into());
         args.push("stdout".into());
         for i in &j.order {
@@ -1607,7 +1657,7 @@ fn stage_e2e(ctx: &Ctx, o: &mut Outcome, layouts: &[Layout], sets: &[E2eSet], ma
             o.count("e2e:timeout");
             continue;
         }
-        o.count(&format!("e2e:{}:{}-files", set.family, j.order.len()));
+        o.count(&format!("e2e:{}:{}", set.family, if j.stdin { "stdin".to_string() } else { format!("{}-files", j.order.len()) }));
         let model_err = j.order.iter().any(|i| model_cfg.get(&(j.set, *i)).map(|x| x.is_none()).unwrap_or(true));
         if model_err {
             // the model says a configuration fails to load: the run must not succeed silently
@@ -1617,7 +1667,8 @@ fn stage_e2e(ctx: &Ctx, o: &mut Outcome, layouts: &[Layout], sets: &[E2eSet], ma
             }
             continue;
         }
-        let texts = match (r.code, split_stdout(&r.out_str(), &files)) {
+        let cmd = if j.stdin { format!("cd {} && HOME={} XDG_CONFIG_HOME={:?} rustfmt {} < {}", files[0].parent().unwrap().display(), l.home.display(), l.xdg, set.opts.describe(), files[0].display()) } else { cmd };
+        let texts = match (r.code, if j.stdin { Some(vec![r.out_str()]) } else { split_stdout(&r.out_str(), &files) }) {
             (Some(0), Some(t)) => t,
             _ => {
                 o.direct_evals += 1;
@@ -1636,7 +1687,7 @@ fn stage_e2e(ctx: &Ctx, o: &mut Outcome, layouts: &[Layout], sets: &[E2eSet], ma
                 }
             };
             o.direct_evals += 1;
-            if j.order.len() == 1 {
+            if j.order.len() == 1 && !j.stdin {
                 o.direct_distinct += 1;
                 singles.insert((j.set, *i), texts[pos].clone());
             }
@@ -1900,8 +1951,9 @@ pub fn run(tier: &str, seed: u64, out: &Path) -> i32 {
             }
         }
         sets.push(E2eSet { layout: li, opts: oo, family: "with-options" });
-        let files = all_config_files(l);
-        if !files.is_empty() && (li % 2 == 0) {
+        let mut files = all_config_files(l);
+        files.extend(l.extra.iter().map(|(p, _)| p.clone()));
+        if !files.is_empty() && (li % 2 == 0 || !l.extra.is_empty()) {
             sets.push(E2eSet { layout: li, opts: Opts::default().with_cfg_path(CfgPath::File(rng.pick(&files).clone())), family: "config-path" });
         }
     }
